@@ -85,6 +85,14 @@ func (c *tpCase) run() (v *hx.Violation) {
 				// the initializer is also listed as a graph input (a default the caller may override): it is decoded,
 				// and refused when damaged, all the same
 				g.Input = []*onnx.ValueInfoProto{hx.ValueInfoNoShape("w")}
+				if len(tp.Dims) > 0 && len(tp.Dims) <= 4 && c.Expect == "exact" {
+					// declared with symbolic dimensions of the default's rank: the default fits any such declaration
+					dt := ref.F32
+					if e := c.Expected.T(); e != nil {
+						dt = e.DT
+					}
+					g.Input = []*onnx.ValueInfoProto{hx.ValueInfo("w", dt, hx.SymbolicDims(len(tp.Dims), "rows"))}
+				}
 			}
 			var m *gonnx.Model
 			// loaded from a proto the caller keeps: the proto is left as it is and can be loaded again
